@@ -166,6 +166,7 @@ func run(c *hx.Ctx) {
 	res := c.Res
 	res.Shard = 25
 	res.Rule = "fork trees of real mined blocks (6 hardfork regimes, every transaction kind, single-field corruptions) x random submission plans, plus hand-built expiry scenarios and stores opened at a v2 checkpoint; every ApplyBlock/RevertBlock of the store is a comparison point; non-trivial := at least one reverted block carried a v1 contract diff; distinct by (tree seed, plan)"
+	tieAccumulatorToSource(c) // gotr_tie.go: plen / sib / treeKey regenerated from chain/db.go and compared with Chain/Accum.v, Chain/TreeKey.v (extra cases files)
 	var cases []string
 	doCase := func(cs Case, toCoq bool) {
 		var t *chaingen.Tree
